@@ -23,7 +23,7 @@ def run(pid, tier, rule, assumptions):
              defines=["ARDUINOJSON_POOL_CAPACITY=2", "ARDUINOJSON_INITIAL_POOL_COUNT=1"], **flags),
     ])
     rng = random.Random(vlib.seed())
-    docs = wg.gen_docs(rng, 700 if quick else 6000) + wg.gen_bulk()
+    docs = wg.gen_docs(rng, 700 if quick else 60000) + wg.gen_bulk()
     parts = 12
     chunks = [docs[i::parts] for i in range(parts)]
     jobs = []
@@ -92,5 +92,5 @@ def run(pid, tier, rule, assumptions):
         "boundary integers and floats, sizes around 31/32, 255/256, 15/16, 65535/65536, depth up to 50)",
         "documents around the 16-bit boundaries are too large for TLC's sequence operators: their header comes from the "
         "specification, their payload is compared by the harness",
-        "floating-point printing error and the float-encoding rule are MEASURED by the harness (libquadmath); TLC applies the bound"]
+        "floating-point printing error and the facts about each float encoding (kind, exactness, integral, range) are MEASURED by the harness (libquadmath, its own integer decoder); TLC applies the bound and the encoding rule"]
     return chk.finish()
